@@ -205,7 +205,56 @@ pub fn table() -> Vec<(&'static str, RowFn)> {
 	// (CompactRef<primitive> is not declared EncodeLike by the crate: only CompactRef<T: CompactAs> is)
 	v.push(row::<Compact<u128>, Compact<u128>>("Compact<u128> : Compact<u128>", |x| like::<Compact<u128>, Compact<u128>>(x)));
 	v.push(row::<Compact<CWrap>, Compact<CWrap>>("CompactRef<CompactAs> : Self", cref_cwrap));
+	probed_rows(&mut v);
 	v
+}
+
+/// Compile-time probe "does the crate declare `A: EncodeLike<B>`?" (inherent method wins over the trait's fallback
+/// when the bound holds). Used for pairs the crate does NOT declare today and that would be false if it did — a byte
+/// container is not always a string: if such a declaration appears, its row is checked like any other.
+pub struct LikeProbe<A, B>(pub std::marker::PhantomData<(A, B)>);
+pub trait LikeFallback {
+	fn declared(&self) -> bool {
+		false
+	}
+}
+impl<A, B> LikeFallback for LikeProbe<A, B> {}
+impl<A: EncodeLike<B>, B: Encode> LikeProbe<A, B> {
+	pub fn declared(&self) -> bool {
+		true
+	}
+}
+
+macro_rules! probe_rows {
+	($v:ident; $( $name:literal : $a:ty => $b:ty ;)*) => {$(
+		{
+			#[allow(unused_imports)]
+			use LikeFallback as _;
+			if LikeProbe::<$a, $b>(std::marker::PhantomData).declared() {
+				$v.push(row::<$a, $b>($name, |x: &$a| x.encode()));
+			}
+		}
+	)*}
+}
+
+fn probed_rows(v: &mut Vec<(&'static str, RowFn)>) {
+	probe_rows! {v;
+		"(probe) Vec<u8> : String" : Vec<u8> => String;
+		"(probe) VecDeque<u8> : String" : VecDeque<u8> => String;
+		"(probe) Bytes : String" : bytes::Bytes => String;
+		"(probe) Vec<u16> : Vec<u8>" : Vec<u16> => Vec<u8>;
+		"(probe) Vec<u8> : Vec<u16>" : Vec<u8> => Vec<u16>;
+		"(probe) Vec<u8> : Vec<bool>" : Vec<u8> => Vec<bool>;
+		"(probe) u32 : Compact<u32>" : u32 => Compact<u32>;
+		"(probe) Compact<u32> : u32" : Compact<u32> => u32;
+		"(probe) Vec<u8> : [u8; 4]" : Vec<u8> => [u8; 4];
+		"(probe) [u8; 4] : Vec<u8>" : [u8; 4] => Vec<u8>;
+		"(probe) Option<u8> : Result<u8, ()>" : Option<u8> => Result<u8, ()>;
+		"(probe) bool : u8" : bool => u8;
+		"(probe) u8 : bool" : u8 => bool;
+		"(probe) u32 : std::num::NonZeroU32" : u32 => std::num::NonZeroU32;
+		"(probe) Vec<u8> : bitvec BitVec<u8, Lsb0>" : Vec<u8> => bitvec::vec::BitVec<u8, bitvec::order::Lsb0>;
+	}
 }
 
 fn cref_cwrap(x: &Compact<CWrap>) -> Vec<u8> {
